@@ -30,6 +30,7 @@ const (
 type c17Op struct {
 	kind byte // 'G' get, 'U' use, 'R' return, 'S' idle period (simulated time passes)
 	arg  int
+	pool int // 'G': which pool of the run (0 = the main pool, 1 = its sibling over the same maps)
 }
 
 // idle periods of a caller, in simulated time (index 0 unused). All are below the scheduler's one-hour
@@ -270,7 +271,23 @@ func runC17(ch *Choices, cfg *RunCfg) (o *Outcome) {
 		limGet, limRet = 2*limGet, 2*limRet
 	}
 
-	pool := c17NewPool(kind, size)
+	// one run in four has a sibling: a second pool of the same kind over the same maps, with its own size.
+	// Pools are independent objects: what is returned to one must never come out of the other, and each
+	// keeps at most its own size.
+	sizes := []int{size}
+	sibFirst := false
+	if ch.Intn(4, "sibling") == 1 {
+		sizes = append(sizes, ch.Pick([]int{25, 25, 20, 10, 10, 5, 5}, "sibling.size"))
+		sibFirst = ch.Intn(2, "sibling.first") == 1
+	}
+	pools := make([]hessian.Pool, len(sizes))
+	if sibFirst {
+		pools[1] = c17NewPool(kind, sizes[1])
+	}
+	pools[0] = c17NewPool(kind, size)
+	if len(sizes) > 1 && !sibFirst {
+		pools[1] = c17NewPool(kind, sizes[1])
+	}
 	faultsOn := ch.Intn(3, "faults.on") == 1
 	abandonP, abandons := 0, 0
 	if faultsOn {
@@ -290,7 +307,7 @@ func runC17(ch *Choices, cfg *RunCfg) (o *Outcome) {
 		for i := 0; i < nops && total < maxOps; i++ {
 			if clockOn && ch.Intn(4, "idle?") == 1 {
 				// simulated time passes before the next operation (an idle period of the caller)
-				scripts[t] = append(scripts[t], c17Op{'S', 1 + ch.Intn(len(c17Idle)-1, "idle.len")})
+				scripts[t] = append(scripts[t], c17Op{kind: 'S', arg: 1 + ch.Intn(len(c17Idle)-1, "idle.len")})
 				idles++
 			}
 			var k int
@@ -304,13 +321,17 @@ func runC17(ch *Choices, cfg *RunCfg) (o *Outcome) {
 				if held >= 4 {
 					continue
 				}
-				scripts[t] = append(scripts[t], c17Op{'G', 0})
+				g := c17Op{kind: 'G'}
+				if len(pools) > 1 {
+					g.pool = ch.Intn(2, "op.pool")
+				}
+				scripts[t] = append(scripts[t], g)
 				held++
 				total++
 			case 1:
-				scripts[t] = append(scripts[t], c17Op{'U', ch.Intn(held, "op.which")})
+				scripts[t] = append(scripts[t], c17Op{kind: 'U', arg: ch.Intn(held, "op.which")})
 			case 2:
-				scripts[t] = append(scripts[t], c17Op{'R', ch.Intn(held, "op.which")})
+				scripts[t] = append(scripts[t], c17Op{kind: 'R', arg: ch.Intn(held, "op.which")})
 				held--
 				total++
 			}
@@ -321,7 +342,7 @@ func runC17(ch *Choices, cfg *RunCfg) (o *Outcome) {
 			continue
 		}
 		for ; held > 0 && total < maxOps+8; held-- {
-			scripts[t] = append(scripts[t], c17Op{'R', 0})
+			scripts[t] = append(scripts[t], c17Op{kind: 'R'})
 			total++
 		}
 	}
@@ -339,7 +360,8 @@ func runC17(ch *Choices, cfg *RunCfg) (o *Outcome) {
 	}
 	pendGet := map[int]pend{}
 	pendRet := map[int]pend{}
-	var hist []porcupine.Operation
+	hists := make([][]porcupine.Operation, len(pools))
+	bornIn := map[uintptr]int{} // object -> the pool whose Get produced it first
 	everReturned := map[uintptr]bool{}
 	gotFromPoolAgain := 0
 	inPoolOp := map[int]bool{} // task is between the invoke and the return of a Get / Return
@@ -377,7 +399,16 @@ func runC17(ch *Choices, cfg *RunCfg) (o *Outcome) {
 				s.Fail("c17/no-progress", "Get", fmt.Sprintf("task %d executed %d own statements inside one Get (solo baseline %d, limit %d): the call does not complete immediately", ev.Task, ev.Steps, baseGet, limGet))
 			}
 			p := pendGet[ev.Task]
-			hist = append(hist, porcupine.Operation{ClientId: ev.Task, Input: poolIn{get: true}, Call: p.call, Output: ev.Obj, Return: ev.Seq})
+			pi, _ := ev.Val.(int)
+			hists[pi] = append(hists[pi], porcupine.Operation{ClientId: ev.Task, Input: poolIn{get: true}, Call: p.call, Output: ev.Obj, Return: ev.Seq})
+			if ev.Obj != 0 {
+				if b, ok := bornIn[ev.Obj]; !ok {
+					bornIn[ev.Obj] = pi
+				} else if b != pi {
+					s.Fail("c17/cross-pool", "Get", fmt.Sprintf("task %d: Get on pool #%d (size %d) handed out object %#x, which was first obtained from pool #%d (size %d) of the same kind over the same maps: the two pools share their objects, so an object from an empty pool is not fresh and a pool's size does not bound what it retains", ev.Task, pi, sizes[pi], ev.Obj, b, sizes[b]))
+					return
+				}
+			}
 			if ev.Obj == 0 {
 				s.Fail("c17/bad-fresh", "Get", fmt.Sprintf("task %d: Get returned nil or a non-pointer object", ev.Task))
 				return
@@ -401,7 +432,8 @@ func runC17(ch *Choices, cfg *RunCfg) (o *Outcome) {
 				s.Fail("c17/no-progress", "Return", fmt.Sprintf("task %d executed %d own statements inside one Return (solo baseline %d, limit %d)", ev.Task, ev.Steps, baseRet, limRet))
 			}
 			p := pendRet[ev.Task]
-			hist = append(hist, porcupine.Operation{ClientId: ev.Task, Input: poolIn{obj: p.obj}, Call: p.call, Output: nil, Return: ev.Seq})
+			pi, _ := ev.Val.(int)
+			hists[pi] = append(hists[pi], porcupine.Operation{ClientId: ev.Task, Input: poolIn{obj: p.obj}, Call: p.call, Output: nil, Return: ev.Seq})
 		case evBad:
 			s.Fail("c17/bad-use", "use", fmt.Sprintf("task %d: pooled object unusable or gave a different result than alone (code %v)", ev.Task, ev.Val))
 		}
@@ -411,6 +443,7 @@ func runC17(ch *Choices, cfg *RunCfg) (o *Outcome) {
 	body := func(script []c17Op) func(t *Task) {
 		return func(t *Task) {
 			var held []interface{}
+			var heldPool []int
 			// every object ever obtained stays reachable until the run ends: objects are identified by
 			// address, and a dropped, collected object's address could otherwise be reused by a fresh one
 			// and look like a resurrected object
@@ -419,11 +452,12 @@ func runC17(ch *Choices, cfg *RunCfg) (o *Outcome) {
 				switch op.kind {
 				case 'G':
 					t.Emit(evGetInv, 0, nil)
-					x := pool.Get()
+					x := pools[op.pool].Get()
 					held = append(held, x)
+					heldPool = append(heldPool, op.pool)
 					ever = append(ever, x)
 					heldObjs[t.ID] = ever
-					t.Emit(evGetRet, objID(x), nil)
+					t.Emit(evGetRet, objID(x), op.pool)
 				case 'S':
 					// only this task runs, every other goroutine of the bubble is parked: the fake clock
 					// jumps by the whole period at once
@@ -439,11 +473,12 @@ func runC17(ch *Choices, cfg *RunCfg) (o *Outcome) {
 						t.Yield()
 					}
 				case 'R':
-					x := held[op.arg]
+					x, pi := held[op.arg], heldPool[op.arg]
 					held = append(held[:op.arg:op.arg], held[op.arg+1:]...)
+					heldPool = append(heldPool[:op.arg:op.arg], heldPool[op.arg+1:]...)
 					t.Emit(evRetInv, objID(x), nil)
-					pool.Return(x)
-					t.Emit(evRetRet, 0, nil)
+					pools[pi].Return(x) // an object goes back to the pool it came from
+					t.Emit(evRetRet, 0, pi)
 				}
 			}
 		}
@@ -474,8 +509,10 @@ func runC17(ch *Choices, cfg *RunCfg) (o *Outcome) {
 	// return a previously seen object
 	if s.FailClass == "" {
 		drainScript := []c17Op{}
-		for i := 0; i < size+2; i++ {
-			drainScript = append(drainScript, c17Op{'G', 0})
+		for pi, sz := range sizes {
+			for i := 0; i < sz+2; i++ {
+				drainScript = append(drainScript, c17Op{kind: 'G', pool: pi})
+			}
 		}
 		d := NewSched(ch, polSequential, 1)
 		d.Seq = s.Seq
@@ -511,16 +548,26 @@ func runC17(ch *Choices, cfg *RunCfg) (o *Outcome) {
 	}
 
 	// history check (outside the bubble: porcupine uses real goroutines and a real timeout)
-	if o.Class == "" && len(hist) > 0 {
+	nhist := 0
+	for _, h := range hists {
+		nhist += len(h)
+	}
+	if o.Class == "" && nhist > 0 {
 		o.post = func(o *Outcome) {
-			pm := poolModel(size)
-			res := porcupine.CheckOperationsTimeout(pm.ToModel(), hist, 8*time.Second)
-			switch res {
-			case porcupine.Illegal:
-				o.fail("c17/not-linearizable", "history", "%s(size %d): the recorded Get/Return history (%d operations, %d tasks) has no legal linearization against the pool model (|idle| <= %d; Return may drop; Get yields an idle or a fresh object): an object came back that nobody returned, or more returned objects were retained than the size allows",
-					c17KindNames[kind], size, len(hist), ntasks, size)
-			case porcupine.Unknown:
-				o.Probes["porcupine timed out (inconclusive, not reported)"]++
+			// every pool of the run is checked against its own model: pools are independent
+			for pi, hist := range hists {
+				if len(hist) == 0 {
+					continue
+				}
+				pm := poolModel(sizes[pi])
+				res := porcupine.CheckOperationsTimeout(pm.ToModel(), hist, 8*time.Second)
+				switch res {
+				case porcupine.Illegal:
+					o.fail("c17/not-linearizable", "history", "%s(size %d)%s: the recorded Get/Return history (%d operations, %d tasks) has no legal linearization against the pool model (|idle| <= %d; Return may drop; Get yields an idle or a fresh object): an object came back that nobody returned, or more returned objects were retained than the size allows",
+						c17KindNames[kind], sizes[pi], map[bool]string{true: " (one of two pools over the same maps)", false: ""}[len(sizes) > 1], len(hist), ntasks, sizes[pi])
+				case porcupine.Unknown:
+					o.Probes["porcupine timed out (inconclusive, not reported)"]++
+				}
 			}
 		}
 	}
@@ -533,7 +580,10 @@ func runC17(ch *Choices, cfg *RunCfg) (o *Outcome) {
 	o.Faults["holder abandoned its objects (never returns them)"] += abandons
 	o.Faults["task waited for a library lock held by a preempted task"] += s.LockWaits
 	o.Faults["context switch inside the library"] += s.Switches
-	o.Probes["history operations checked by porcupine"] += len(hist)
+	o.Probes["history operations checked by porcupine"] += nhist
+	if len(sizes) > 1 {
+		o.Probes["two pools of one kind over the same maps in one run"]++
+	}
 	if gotFromPoolAgain > 0 {
 		o.Probes["a returned object was handed out again"]++
 	}
@@ -553,7 +603,7 @@ func runC17(ch *Choices, cfg *RunCfg) (o *Outcome) {
 	}
 	o.SwitchPairs = len(s.SwitchSet)
 	o.Sample = map[string]interface{}{"pool": fmt.Sprintf("%s(%d)", c17KindNames[kind], size), "tasks": ntasks, "policy": policy, "mean_quantum": meanQ,
-		"history_ops": len(hist), "context_switches": s.Switches, "script_task0": scriptString(scripts[0])}
+		"history_ops": nhist, "context_switches": s.Switches, "script_task0": scriptString(scripts[0])}
 	_ = keep
 	return o
 }
